@@ -28,8 +28,8 @@ Example C15_sequential_reading :
               mkEntry (s2l "d/l") 50 (s2l "f") 511 500 [] ] in
   unpack false [] fs (s2l "/dst") es =
   (Dir 493 None [(s2l "dst", Dir 493 None
-      [ (s2l "d", Dir 365 (Some 300%Z) [(s2l "f", File (s2l "two") 384 (Some 200%Z)); (s2l "l", Link (s2l "f"))]);
-        (s2l "empty", Dir 448 (Some 400%Z) []) ])], ROk).
+      [ (s2l "d", Dir 365 (Some 300000000000%Z) [(s2l "f", File (s2l "two") 384 (Some 200000000000%Z)); (s2l "l", Link (s2l "f"))]);
+        (s2l "empty", Dir 448 (Some 400000000000%Z) []) ])], ROk).
 Proof. vm_compute. reflexivity. Qed.
 
 Print Assumptions C15_unsupported_fails.
